@@ -83,6 +83,17 @@ func sdfLeaves2() []Leaf2 {
 		{"triangle-cw", polyTriangleCW},
 		{"L-shape", polyL},
 		{"rect4x2+collinear", polyRectCollinear},
+		// rectilinear plates with inner edges on the centre / quarter lines of their bounding square, at sizes for
+		// which the quadtree's split coordinate rounds differently (polygon quadtree alignments, see C04)
+		{"L-plate 2x2 x5", func() []v2.Vec { return scalePts(pts(0, 0, 2, 0, 2, 1, 1, 1, 1, 2, 0, 2), 5) }},
+		{"L-plate 2x2 x13", func() []v2.Vec { return scalePts(pts(0, 0, 2, 0, 2, 1, 1, 1, 1, 2, 0, 2), 13) }},
+		{"T-plate 4x4 x3", func() []v2.Vec { return scalePts(pts(0, 0, 4, 0, 4, 1, 3, 1, 3, 4, 1, 4, 1, 1, 0, 1), 3) }},
+		{"flange-and-hub 20x1.8 (hub edge on the centre line)", func() []v2.Vec { return pts(0, 0, 20, 0, 20, 1, 10, 1, 10, 1.8, 0, 1.8) }},
+		{"flange-and-hub 24x1.8", func() []v2.Vec { return pts(0, 0, 24, 0, 24, 1, 12, 1, 12, 1.8, 0, 1.8) }},
+		{"T on its side 34x3", func() []v2.Vec { return pts(0, 0, 17, 0, 17, 1, 34, 1, 34, 2, 17, 2, 17, 3, 0, 3) }},
+		{"hub-plate 4x4 x0.7", func() []v2.Vec {
+			return scalePts(pts(0, 0, 4, 0, 4, 2, 2, 2, 2, 4, 0, 4, 0, 3, 1, 3, 1, 1, 0, 1), 0.7)
+		}},
 	} {
 		k := k
 		add(mk2("Polygon2D("+k.name+")", "Polygon2D", true, true, func() (sdf.SDF2, error) {
